@@ -1,6 +1,7 @@
 package main
 
 import (
+	"go/types"
 	"fmt"
 	"go/token"
 	"strings"
@@ -183,12 +184,16 @@ func ruleF6(c *Ctx, id string) {
 			continue
 		}
 		ok := false
-		for _, b := range f.Blocks {
-			for _, in := range b.Instrs {
-				cal := staticCallee(in)
-				if cal != nil && cal.Name() == "Wait" && strings.Contains(FuncName(cal), "sync.Cond") {
-					// in a loop re-testing nthread
-					ok = reachableFrom(in, in)
+		fsc := scopesOf(f)
+		for _, sc := range fsc {
+			for _, b := range sc.Fn.Blocks {
+				for _, in := range b.Instrs {
+					cal := staticCallee(in)
+					if cal != nil && cal.Name() == "Wait" && strings.Contains(FuncName(cal), "sync.Cond") {
+						// in a loop re-testing nthread (of this function, or of the private helper that waits)
+						top := topInstr(fsc, sc, in)
+						ok = reachableFrom(in, in) || reachableFrom(top, top)
+					}
 				}
 			}
 		}
@@ -227,12 +232,25 @@ func ruleF8(c *Ctx, id string) {
 	})
 	noRoot := cmpZeroEdge(ind, map[ssa.Value]bool{root: true})
 	n := 0
+	// the answer "nothing to free" is the null block number, or false when indshrink says it with a second result
+	boolIdx, bnIdx := -1, 0
+	for i := 0; i < ind.Signature.Results().Len(); i++ {
+		if b, isB := ind.Signature.Results().At(i).Type().Underlying().(*types.Basic); isB && b.Kind() == types.Bool {
+			boolIdx = i
+		} else {
+			bnIdx = i
+		}
+	}
 	for _, b := range ind.Blocks {
 		r, ok := b.Instrs[len(b.Instrs)-1].(*ssa.Return)
-		if !ok || len(r.Results) != 1 {
+		if !ok || len(r.Results) == 0 {
 			continue
 		}
-		if k, isk := constInt(r.Results[0]); !isk || k != 0 {
+		if boolIdx >= 0 {
+			if bv, isb := constBool(r.Results[boolIdx]); !isb || bv {
+				continue
+			}
+		} else if k, isk := constInt(r.Results[bnIdx]); !isk || k != 0 {
 			continue
 		}
 		n++
@@ -248,9 +266,26 @@ func ruleF8(c *Ctx, id string) {
 		for _, sc := range scopesOf(fn) {
 			for _, call := range P.CallsIn(sc.Fn, funcIs(ind)) {
 				cv := call.(*ssa.Call)
-				zero := cmpZeroEdge(sc.Fn, fwdClosure([]ssa.Value{cv}, false))
+				var blk, flag ssa.Value = cv, nil
+				for _, r := range refs(cv) {
+					if ex, isE := r.(*ssa.Extract); isE {
+						if ex.Index == boolIdx {
+							flag = ex
+						} else if ex.Index == bnIdx {
+							blk = ex
+						}
+					}
+				}
+				zero := cmpZeroEdge(sc.Fn, fwdClosure([]ssa.Value{blk}, false))
+				if boolIdx >= 0 {
+					if flag == nil {
+						R.Fail(id, FuncName(fn)+"|frees the root indshrink reports", P.Pos(call.Pos()), "the caller looks at indshrink's 'free the root' answer", "the answer is dropped")
+						continue
+					}
+					zero = boolEdge(sc.Fn, flag, false)
+				}
 				isFree := func(in ssa.Instruction) bool {
-					return callTo(freeIndex)(in) || (callTo(V.FreeBlock)(in) && stripConv(argN(in, 0)) == ssa.Value(cv))
+					return callTo(freeIndex)(in) || (callTo(V.FreeBlock)(in) && stripConv(argN(in, 0)) == blk)
 				}
 				ok := MustAfterE(sc.Fn, isFree, nil, zero)(call)
 				R.Check(ok, id, FuncName(fn)+"|frees the root indshrink reports", P.Pos(call.Pos()), "on every path on which indshrink returned a block, that block is freed (FreeBlock / freeIndex)", "must-follow except on the result == 0 edge", "a root reported as free is not freed: the index block is leaked")
